@@ -451,9 +451,17 @@ def alias_renames(prog):
     cren = {}
     for k in miss_c:
         ty, val = base_c[k]
-        ms = [c for c in new_c if parent(c) == parent(k) and prog.consts[c].get("ty") == ty and prog.consts[c].get("value") == val]
-        if len(ms) == 1 and sum(1 for k2 in miss_c if parent(k2) == parent(k) and base_c[k2] == [ty, val]) == 1:
-            cren[ms[0]] = k
+        def cval(d):
+            if d.get("value") not in (None, "indirect", "slice", "zst"):
+                return d.get("value")
+            return ("mem:" + ",".join(str(x) for x in d["mem"])) if d.get("mem") else None
+        ms = [c for c in new_c if parent(c) == parent(k) and prog.consts[c].get("ty") == ty and cval(prog.consts[c]) == val]
+        same = sorted(k2 for k2 in miss_c if parent(k2) == parent(k) and base_c[k2] == [ty, val])
+        # equal type and value: which new name stands for which old one makes no difference, pair them in order
+        if len(ms) == len(same) and k in same:
+            cand_new = sorted(ms)[same.index(k)]
+            if cand_new not in cren:
+                cren[cand_new] = k
     if cren:
         for c, k in cren.items():
             prog.consts[k] = prog.consts[c]
